@@ -380,6 +380,25 @@ func (f *Frame) modelSortSlice(c *ssa.CallCommon, pos token.Pos) (EV, bool) {
 		vc.errf("sort.Slice on %s", old.s)
 		return Tuple{}, true
 	}
+	// sort.Slice reorders the backing array.  The value model of slices follows that for the variable that is sorted; a slice
+	// that existed when the function was entered (a parameter, a captured variable, a field) is shared with the caller, who
+	// would see its elements move: an undeclared write, reported unless it can be excluded (like an append to a shortened
+	// entry slice, alias.go).
+	declared := false
+	if f.depth == 0 && vc.con != nil {
+		for _, m := range vc.con.Modifies {
+			if a, isAlloc := u.X.(*ssa.Alloc); isAlloc && m == "backing:"+a.Comment {
+				declared = true // the contract says so: `modifies backing:<param>`; checked again at every call site
+			}
+		}
+	}
+	if si := vc.P.shortInfoOf(f.fn); f.depth == 0 && si.entry[u] && !declared {
+		n := vc.callOrd["frame:backing-array-sort"]
+		vc.callOrd["frame:backing-array-sort"] = n + 1
+		fo := vc.addObl(f, "frame", fmt.Sprintf("frame[backing-array].a-slice-the-caller-still-sees-is-not-sorted-in-place#%d", n),
+			sx("<=", sx("len_"+old.s, old.t), "1"), "sort.Slice on a slice that existed at entry reorders elements the caller still sees (unless it has at most one element)", pos)
+		fo.NotExcluded = true
+	}
 	es := vc.sortOf(vc.S.elemOf[old.s])
 	arr := vc.fresh("sorted", "(Array Int "+es+")")
 	n := sx("len_"+old.s, old.t)
